@@ -3,7 +3,9 @@
    Points are triples of 64 bit patterns of doubles; [coordR bits] = 1 + mantissa/2^52 is the
    real value of a pattern in [1,2). *)
 From Coq Require Import ZArith List Bool Reals Permutation.
-From CMI Require Import Cxx.C17_Defs Cxx.C17_Proofs Cxx.C17_Real.
+From Flocq Require Import Core BinarySingleNaN.
+Require Flocq.IEEE754.PrimFloat.
+From CMI Require Import Cxx.C17_Defs Cxx.C17_Proofs Cxx.C17_Real Cxx.C17_Filter Cxx.C17_FilterB Cxx.C17_FilterSound.
 Import ListNotations.
 Local Open Scope Z_scope.
 
@@ -93,3 +95,66 @@ Theorem C17_insphere_permutation_signs : forall a b c d e p, Permutation p [0; 1
   insphere_exact (nth_pt l 0) (nth_pt l 1) (nth_pt l 2) (nth_pt l 3) (nth_pt l 4) = parity p * insphere_exact a b c d e.
 Proof. exact insphere_perm_any. Qed.
 Print Assumptions C17_insphere_permutation_signs.
+
+(* (v) the floating point filter.
+   The double decoded from a bit pattern in [1,2) (PrimFloat value of the model, seen through Flocq's Prim2B) is finite
+   and its real value is coordR = 1 + mantissa/2^52: the determinants above are over the values the code works with. *)
+Theorem C17_coordR_is_value : forall bits, in_range bits ->
+  is_finite (Flocq.IEEE754.PrimFloat.Prim2B (f_of_bits bits)) = true /\
+  B2R (Flocq.IEEE754.PrimFloat.Prim2B (f_of_bits bits)) = coordR bits.
+Proof. exact coordR_is_value. Qed.
+Print Assumptions C17_coordR_is_value.
+
+(* generic running error bound (DESIGN A.6): a tree of -, *, + evaluated with one rounding to nearest (binary64, gradual
+   underflow) per node, leaves multiples of 2^lg and no node finer than 2^-1074:  |fl(E) - E| <= ((1+2^-53)^k - 1) |E|_abs *)
+Theorem C17_running_error : forall lg rho, (forall i, on_grid lg (rho i)) -> forall e, wf lg e = true ->
+  (Rabs (evalF rho e - evalR rho e) <= G (cnt e) * evalA rho e /\ Rabs (evalR rho e) <= evalA rho e)%R.
+Proof. exact running_error. Qed.
+Print Assumptions C17_running_error.
+
+(* filter soundness, full strength: for all points with coordinates in [1,2), whenever the binary64 filter of
+   orient3d_adaptive / insphere_adaptive decides (result < -errbound or result > errbound, evaluated in PrimFloat
+   exactly as written in the header), its answer is the result of the exact function; it never answers 0.
+   (orient3d and insphere in one statement: each Print Assumptions over the Flocq development costs about 10 s) *)
+Theorem C17_filter_sound :
+  (forall a b c d s,
+     pt_in_range a -> pt_in_range b -> pt_in_range c -> pt_in_range d ->
+     orient3d_filter a b c d = Some s -> s = orient3d_exact a b c d) /\
+  (forall a b c d e s,
+     pt_in_range a -> pt_in_range b -> pt_in_range c -> pt_in_range d -> pt_in_range e ->
+     insphere_filter_dec a b c d e = Some s -> s = insphere_exact a b c d e).
+Proof. exact (conj orient_filter_sound insphere_filter_sound). Qed.
+Print Assumptions C17_filter_sound.
+
+Theorem C17_filter_never_zero : forall re s, filter_decision re = Some s -> s = -1 \/ s = 1.
+Proof. exact filter_decision_nonzero. Qed.
+Print Assumptions C17_filter_never_zero.
+
+(* the property for the functions that are called by the grid code: sign of the real determinant, 0 exactly when degenerate *)
+Theorem C17_adaptive_is_real_sign :
+  (forall a b c d,
+     pt_in_range a -> pt_in_range b -> pt_in_range c -> pt_in_range d ->
+     sgn_is (orientR (coordR (px a)) (coordR (py a)) (coordR (pz a)) (coordR (px b)) (coordR (py b)) (coordR (pz b))
+                     (coordR (px c)) (coordR (py c)) (coordR (pz c)) (coordR (px d)) (coordR (py d)) (coordR (pz d)))
+            (orient3d_adaptive a b c d)) /\
+  (forall a b c d e,
+     pt_in_range a -> pt_in_range b -> pt_in_range c -> pt_in_range d -> pt_in_range e ->
+     sgn_is (insphereR (coordR (px a)) (coordR (py a)) (coordR (pz a)) (coordR (px b)) (coordR (py b)) (coordR (pz b))
+                       (coordR (px c)) (coordR (py c)) (coordR (pz c)) (coordR (px d)) (coordR (py d)) (coordR (pz d))
+                       (coordR (px e)) (coordR (py e)) (coordR (pz e)))
+            (insphere_adaptive a b c d e)).
+Proof. exact (conj orient_adaptive_real_sign insphere_adaptive_real_sign). Qed.
+Print Assumptions C17_adaptive_is_real_sign.
+
+(* ... and they change sign under odd permutations of the points and are unchanged under even ones *)
+Theorem C17_adaptive_permutation_signs :
+  (forall a b c d p,
+     pt_in_range a -> pt_in_range b -> pt_in_range c -> pt_in_range d -> Permutation p [0; 1; 2; 3]%nat ->
+     let l := permute pt0 [a; b; c; d] p in
+     orient3d_adaptive (nth_pt l 0) (nth_pt l 1) (nth_pt l 2) (nth_pt l 3) = parity p * orient3d_adaptive a b c d) /\
+  (forall a b c d e p,
+     pt_in_range a -> pt_in_range b -> pt_in_range c -> pt_in_range d -> pt_in_range e -> Permutation p [0; 1; 2; 3; 4]%nat ->
+     let l := permute pt0 [a; b; c; d; e] p in
+     insphere_adaptive (nth_pt l 0) (nth_pt l 1) (nth_pt l 2) (nth_pt l 3) (nth_pt l 4) = parity p * insphere_adaptive a b c d e).
+Proof. exact (conj orient_adaptive_perm insphere_adaptive_perm). Qed.
+Print Assumptions C17_adaptive_permutation_signs.
